@@ -32,7 +32,7 @@ ASSUMPTIONS = ["purely sequential histories: the simulator contributes the opera
 FAULT_KINDS = ["agent_deletion", "reconfiguration", "reset"]
 PROBES = ["query_after_deletion", "count_per_state_after_deletion", "delete_nonexistent_id", "two_types_interleaved_ids",
           "configure_after_deletion"]
-EXHAUSTIVE = {"quick": True, "thorough": True}
+EXHAUSTIVE = {"quick": False, "thorough": False}
 
 ALPHABET = ["A", "B", "C", "D", "E", "F", "G"]
 STATES = ["idle", "busy", "done"]
@@ -300,3 +300,8 @@ def trigger(case, v, f):
 
 def neutralise(case, v, f):
     return None
+
+
+def evidence_extra(tier):
+    return {"enumerated_completely": "all operation histories of length <= %d over the 7-symbol alphabet %s (in addition to the sampled histories; "
+                                     "'exhaustive' stays false because the sampled part is not)" % (6 if tier == "thorough" else 5, ALPHABET)}
